@@ -160,18 +160,35 @@ Proof. exact tie_update_broker. Qed.
 Print Assumptions c15_tie_update_broker.
 
 (* With Metadata.Timeout set the deadline is an environment event ([dl] answers the successive pastDeadline
-   tests). EVERY exit of a refresh — success, authentication failure, out of brokers, past the deadline with a
-   candidate left, past the deadline with nobody left — keeps every seed the client was given (in the seed list
-   or set aside), and never returns with nobody to ask while seeds are still set aside. *)
-Theorem c15_refresh_every_exit_resurrects : forall answer attempts c tried dl c' r tr dl',
-  refresh_d answer attempts c tried dl = (c', r, tr, dl') ->
+   tests); [ll b] says that b's answer has a leaderless partition, which makes the refresh retry (re-entering
+   with the candidate lists as they are and the advertised brokers [adv]). EVERY exit of a refresh — an answer,
+   a leaderless answer after its retries, authentication failure, out of brokers, past the deadline with a
+   candidate left, past the deadline with nobody left — keeps every seed the client was given (in the seed
+   list or set aside), and never returns with nobody to ask while seeds are still set aside. *)
+Theorem c15_refresh_every_exit_resurrects : forall answer ll adv attempts c tried dl c' r tr dl',
+  refresh_d answer ll adv attempts c tried dl = (c', r, tr, dl') ->
   same_elements (seedset c') (seedset c) /\ (any c' = None -> dead c' = []).
 Proof. exact refresh_d_exits. Qed.
 Print Assumptions c15_refresh_every_exit_resurrects.
 
+(* resurrectDeadBrokers appends the seeds set aside to the live ones: none of the live ones is displaced *)
+Theorem c15_resurrect_keeps_live_seeds : forall c,
+  seeds (resurrect c) = seeds c ++ dead c /\ dead (resurrect c) = [] /\ known (resurrect c) = known c.
+Proof. exact resurrect_order. Qed.
+Print Assumptions c15_resurrect_keeps_live_seeds.
+
+(* a seed whose answer has a leaderless partition: the refresh retries, asks it again, returns nil, and the seed is
+   still the head of the seed list afterwards, for every retry budget *)
+Theorem c15_refresh_leaderless_keeps_seed : forall answer ll adv attempts c tried b r,
+  seeds c = b :: r -> answer b = Answers -> ll b = true ->
+  exists c' tr, refresh_d answer ll adv attempts c tried [] = (c', RSuccess b, tr, []) /\
+    seeds c' = b :: r /\ dead c' = dead c.
+Proof. exact leaderless_succeeds. Qed.
+Print Assumptions c15_refresh_leaderless_keeps_seed.
+
 (* so the refresh after a give-up that left nothing set aside asks every seed again and succeeds if one answers *)
-Theorem c15_refresh_after_give_up : forall answer1 attempts1 c tried dl c' r tr dl',
-  refresh_d answer1 attempts1 c tried dl = (c', r, tr, dl') ->
+Theorem c15_refresh_after_give_up : forall answer1 ll adv attempts1 c tried dl c' r tr dl',
+  refresh_d answer1 ll adv attempts1 c tried dl = (c', r, tr, dl') ->
   dead c' = [] ->
   forall answer2 attempts2,
   (exists b, In b (seedset c ++ known c') /\ answer2 b = Answers) ->
@@ -180,8 +197,8 @@ Theorem c15_refresh_after_give_up : forall answer1 attempts1 c tried dl c' r tr 
 Proof. exact refresh_after_give_up. Qed.
 Print Assumptions c15_refresh_after_give_up.
 
-(* without a deadline (Metadata.Timeout unset) this is the iteration the theorems above speak about *)
-Theorem c15_refresh_no_deadline : forall answer attempts c tried,
-  refresh_d answer attempts c tried [] = let '(c', r, tr) := refresh answer attempts c tried in (c', r, tr, []).
+(* without a deadline and without leaderless answers this is the iteration the theorems further up speak about *)
+Theorem c15_refresh_no_deadline : forall answer adv attempts c tried,
+  refresh_d answer no_ll adv attempts c tried [] = let '(c', r, tr) := refresh answer attempts c tried in (c', r, tr, []).
 Proof. exact refresh_d_nil. Qed.
 Print Assumptions c15_refresh_no_deadline.
